@@ -17,7 +17,7 @@ import gen_c11 as G
 ID = 'C11'
 LEVEL = 'proof'
 GEN_DIR = os.path.join(runner.BUILD, 'gen_c11')
-C11_JOBS = int(os.environ.get('VERIF_C11_JOBS', '6'))
+C11_JOBS = int(os.environ.get('VERIF_C11_JOBS', os.environ.get('VERIF_JOBS', '10')))
 
 RULE = ('programs = view expression trees of depth 1..2 (quick) / 1..3 (thorough) over leaves of every static-knowledge kind '
         '(constant shape cs/fx, clipped shape cl/cld/cla, fixed dim fd/fdf/fdh, bounded dim bd, dynamic dy): depth 1 = every operation '
